@@ -127,8 +127,9 @@ def do_table(pattern):
         m = json.load(open(os.path.join(SEEDED, sid, "meta.json")))
         cr = m.get("check_result") or {}
         rp = cr.get("replay") or {}
-        summ = (m.get("summary") or "").replace("\n", " ").replace("|", "/")
-        summ = re.split(r"(?<=[.;]) ", summ)[0][:210]
+        summ = " ".join((m.get("summary") or m.get("what") or "").replace("|", "/").split())
+        if len(summ) > 230:
+            summ = summ[:230].rsplit(" ", 1)[0] + " …"
         if m.get("confirmed_at_head") is False:
             res = "not property-breaking at HEAD any more"
         elif cr.get("detected") and cr.get("failing_input_found"):
